@@ -34,4 +34,6 @@ def plan(tier, seed):
     p = dict(units=units, rule=RULE, assumptions=['std::hash of the built-in components is the identity-like libstdc++ hash (only equality of hashes is checked)'])
     if not quick:
         p['stripes'] = {u.name: 16 for u in units}
+        fz = [r for r in regs if 'CmpND' in r][:10] + [r for r in regs if 'Arith' in r or 'Single' in r]
+        p = with_fuzz(p, 'C16', 'props/C16.h', fz, tier, 0, 2000000, max_len=200, chunk=6)
     return p
